@@ -49,6 +49,9 @@ type c01Case struct {
 	// UName that of the user name. The BMC knows exactly these values.
 	Secret int `json:"secret,omitempty"`
 	UName  int `json:"uname,omitempty"`
+	// DiscPad: with Discover=1, the advertised record data is brought to exactly
+	// this many bytes (0: as it comes) by filler records before the suite's own
+	DiscPad int `json:"discpad,omitempty"`
 }
 
 // c01Content returns n bytes of the given content kind.
@@ -129,6 +132,28 @@ func c01One(c c01Case, r *rep.R) (string, string) {
 			rec = csRec17
 		}
 		cfg.CipherSuiteData = csData(csRecOEM, rec)
+		if c.DiscPad > 0 {
+			// fillers: 3-byte records (no algorithms beyond authentication) and
+			// 4-byte ones, chosen so that the total is exactly DiscPad
+			var recs []ref.CSRecord
+			own := len(rec.Encode())
+			left := c.DiscPad - own
+			id := byte(0x40)
+			for left > 0 {
+				f := ref.CSRecord{ID: id, Auth: 2}
+				if left%3 != 0 && left >= 4 {
+					f.Integs = []byte{2}
+				}
+				if n := len(f.Encode()); n > left {
+					break
+				} else {
+					left -= n
+				}
+				recs = append(recs, f)
+				id++
+			}
+			cfg.CipherSuiteData = csData(append(recs, rec)...)
+		}
 	}
 	w := newWorld(cfg, nil, nil)
 	opts := &bmc.V2SessionOpts{
@@ -160,7 +185,7 @@ func c01One(c c01Case, r *rep.R) (string, string) {
 	var err error
 	var dev *ipmi.GetDeviceIDRsp
 	var chs *ipmi.GetChassisStatusRsp
-	var devErr, chsErr, closeErr error
+	var devErr, chsErr, closeErr, lunErr error
 	p := guard(func() {
 		sess, err = w.Conn.NewV2Session(w.Ctx, opts)
 		if err != nil {
@@ -168,6 +193,14 @@ func c01One(c c01Case, r *rep.R) (string, string) {
 		}
 		dev, devErr = sess.GetDeviceID(w.Ctx)
 		chs, chsErr = sess.GetChassisStatus(w.Ctx)
+		// a command addressed to another logical unit of the BMC
+		lun := ipmi.LUN(1 + (c.ULen+c.PLen+c.Priv)%3)
+		rd := &ipmi.GetSensorReadingCmd{Req: ipmi.GetSensorReadingReq{Number: 2}, OwnerLUN: lun}
+		if err := bmc.ValidateResponse(sess.SendCommand(w.Ctx, rd)); err != nil {
+			lunErr = fmt.Errorf("Get Sensor Reading to LUN %d: %v", lun, err)
+		} else if rd.Rsp.Reading != cfg.Sensors[2][0] {
+			lunErr = fmt.Errorf("Get Sensor Reading to LUN %d returned %#02x, the BMC sent %#02x", lun, rd.Rsp.Reading, cfg.Sensors[2][0])
+		}
 		closeErr = sess.Close(w.Ctx)
 	})
 	cls := "std"
@@ -216,8 +249,8 @@ func c01One(c c01Case, r *rep.R) (string, string) {
 	if len(probs) > 0 {
 		return "C01/" + cls + "/bmc-rejects-datagram", "BMC found non-conforming datagrams: " + strings.Join(probs, "; ")
 	}
-	if devErr != nil || chsErr != nil || closeErr != nil {
-		return "C01/" + cls + "/command-failed", fmt.Sprintf("in-session commands failed: GetDeviceID=%v GetChassisStatus=%v Close=%v", devErr, chsErr, closeErr)
+	if devErr != nil || chsErr != nil || closeErr != nil || lunErr != nil {
+		return "C01/" + cls + "/command-failed", fmt.Sprintf("in-session commands failed: GetDeviceID=%v GetChassisStatus=%v %v Close=%v", devErr, chsErr, lunErr, closeErr)
 	}
 	if dev.ID != cfg.DeviceID[0] || dev.Product != uint16(cfg.DeviceID[9])|uint16(cfg.DeviceID[10])<<8 || chs.PoweredOn != (cfg.Chassis[0]&1 != 0) || chs.PowerRestorePolicy != ipmi.PowerRestorePolicy(cfg.Chassis[0]>>5&3) {
 		return "C01/" + cls + "/response-not-returned", fmt.Sprintf("responses differ from what the BMC sent: %+v %+v", dev, chs)
@@ -518,6 +551,13 @@ func runC01(r *rep.R) {
 					do(c01Case{Suite: s, Discover: 1, ULen: ul, PLen: 20 - ul, KG: kg, Priv: priv, Lookup: priv%2 == 0, BMCPat: priv % 4, SIDSel: ul / 4 % 4})
 				}
 			}
+		}
+	}
+	// discovery against record data of every total length around the chunk
+	// boundaries (the last chunk full, empty, or one byte long)
+	for _, s := range []ref.Suite{{3, 4, 1}, {1, 1, 1}} {
+		for _, n := range []int{15, 16, 17, 31, 32, 33, 47, 48, 49, 64, 79, 80, 81, 96} {
+			do(c01Case{Suite: s, Discover: 1, ULen: 5, PLen: 8, Priv: 4, BMCPat: 2, SIDSel: 1, DiscPad: n})
 		}
 	}
 	r.Bound("suites", len(all))
